@@ -182,3 +182,24 @@ func verifMkFS(files map[string]string) verifFS {
 	}
 	return m
 }
+
+// ---- branch-free logic (the engine builds terms; no path fork) ---------------------------------------------------
+
+func verifAnd(a, b bool) bool     { return a && b }
+func verifOr(a, b bool) bool      { return a || b }
+func verifNot(a bool) bool        { return !a }
+func verifImplies(a, b bool) bool { return !a || b }
+func verifIteInt(c bool, a, b int) int {
+	if c {
+		return a
+	}
+	return b
+}
+
+// verifCfg returns a check-tier parameter (the engine supplies it and records it in every counterexample vector).
+func verifCfg(name string, def int) int {
+	if v, ok := verifVec["cfg_"+name]; ok {
+		return int(v)
+	}
+	return def
+}
